@@ -1,3 +1,8 @@
+(* ADDED IN THE THIRD ROUND (CacheModel.v, CacheOps.v, PagedMem.v, PagedMemFacts.v): the lift to whole histories under any eviction
+   (C14_cache_transparent_for_writer_histories) and the refinement of the flat file by random-access-memory's page map
+   (C14_paged_memory_refines_flat_file); the remark 'Not proved here ... that the storage backends implement the file semantics' below is
+   superseded for the in-memory backend.
+   ---- header of the earlier rounds: ---- *)
 (* C14 — behaviour is independent of the node cache (pinned statements; proofs in Cache.v).
    The crate looks a tree node up in the cache first, then in the unflushed map, then in the tree
    store; it caches what it read from the store; the cache library may evict anything at any time.
@@ -5,7 +10,9 @@
    lookup answers exactly what the cache-less lookup answers, in both lookup modes.
    Not proved here (covered by the configuration sweep of tools/c14.py): that the storage backends
    implement the file semantics of Storage.v, moka internals, the OS file system. *)
+From HC Require Import Core Refine ClearRefine Unified1 Unified3 CacheModel CacheOps.
 From HC Require Import Base NMap Codec Crypto FlatTree Storage Oplog Merkle Cache.
+From HC Require Import PagedMem PagedMemFacts.
 
 Theorem C14_cache_transparent : forall cache t tf,
   cache_ok cache t tf -> forall i am, node_get_cached cache t tf i am = node_get t tf i am.
@@ -43,9 +50,152 @@ Proof.
   apply (cache_ok_insert nm_empty _ _ 4 false); [apply cache_ok_empty | reflexivity].
 Qed.
 
+Theorem C14_paged_memory_refines_flat_file :
+  forall (ps : N) (ops : list op), 0 < ps -> run_ram ps ops = run_file ops.
+Proof. exact ram_refines_file. Qed.
+
+Theorem C14_paged_memory_step :
+  forall (r : ram) (f : file) (o : op),
+         ram_ok r ->
+         refines r f ->
+         snd (ram_step r o) = snd (file_step f o) /\
+         ram_ok (fst (ram_step r o)) /\ refines (fst (ram_step r o)) (fst (file_step f o)).
+Proof. exact step_refines. Qed.
+
+Theorem C14_paged_memory_steps :
+  forall (ops : list op) (r : ram) (f : file),
+         ram_ok r ->
+         refines r f ->
+         fst (ram_steps r ops) = fst (file_steps f ops) /\
+         ram_ok (snd (ram_steps r ops)) /\ refines (snd (ram_steps r ops)) (snd (file_steps f ops)).
+Proof. exact ram_steps_refine. Qed.
+
+Theorem C14_cache_transparent_for_histories :
+  forall (cr : crypto) (ev : evo),
+         evictor ev ->
+         forall (ops : list hop) (st : cst) (c : core) (w : world),
+         valid st c w -> hist_vm cr ops c w -> snd (hrun_c cr ev ops st c w) = hrun cr ops c w.
+Proof. exact cache_transparent_history. Qed.
+
+Theorem C14_cache_transparent_for_writer_histories :
+  forall cr : crypto,
+         OplogFacts.crc_ok cr ->
+         (forall x : bytes, Datatypes.length (cr_hash cr x) = 32%nat) ->
+         (forall x : bytes, all_zero (cr_hash cr x) = false) ->
+         (forall x : bytes, bytes_ok (cr_hash cr x) = true) ->
+         (forall sk m : bytes, Datatypes.length (cr_sign cr sk m) = 64%nat) ->
+         (forall sk m : bytes, bytes_ok (cr_sign cr sk m) = true) ->
+         forall (ev : evo) (ops : list hop) (c : core) (d : disk) (j : list sop) (evs : list event)
+           (bs : list bytes) (cl : N -> bool) (sk : bytes) (st : cst),
+         evictor ev ->
+         FInv cr c d bs cl ->
+         NInv cr c d bs ->
+         kp_secret (c_keypair c) = Some sk ->
+         cache_ok (k_cache st) (c_tree c) (d_tree d) ->
+         wf_w ops (N.of_nat (Datatypes.length bs)) ->
+         sumN (map len (bs ++ happended ops)) <= u64_max ->
+         NODE_SIZE * (2 * N.of_nat (Datatypes.length (bs ++ happended ops))) <= u64_max ->
+         snd (hrun_c cr ev ops st c {| w_disk := d; w_journal := j; w_events := evs |}) =
+         hrun cr ops c {| w_disk := d; w_journal := j; w_events := evs |}.
+Proof. exact writer_cache_transparent. Qed.
+
+Theorem C14_cache_transparent_from_creation :
+  forall cr : crypto,
+         OplogFacts.crc_ok cr ->
+         (forall x : bytes, Datatypes.length (cr_hash cr x) = 32%nat) ->
+         (forall x : bytes, all_zero (cr_hash cr x) = false) ->
+         (forall x : bytes, bytes_ok (cr_hash cr x) = true) ->
+         (forall sk m : bytes, Datatypes.length (cr_sign cr sk m) = 64%nat) ->
+         (forall sk m : bytes, bytes_ok (cr_sign cr sk m) = true) ->
+         forall (ev : evo) (kp : keypair) (sk : bytes) (ops : list hop),
+         evictor ev ->
+         OplogFacts.keypair_ok kp = true ->
+         kp_secret kp = Some sk ->
+         wf_w ops 0 ->
+         sumN (map len (happended ops)) <= u64_max ->
+         NODE_SIZE * (2 * N.of_nat (Datatypes.length (happended ops))) <= u64_max ->
+         exists (d0 : disk) (ops0 : list sop) (c0 : core),
+           core_open cr (Some kp) false disk_empty = (d0, ops0, Ok c0) /\
+           snd (core_open_c cr ev (Some kp) false disk_empty 0) = (d0, ops0, Ok c0) /\
+           (forall st : cst,
+            st = fst (core_open_c cr ev (Some kp) false disk_empty 0) \/ k_cache st = nm_empty ->
+            snd (hrun_c cr ev ops st c0 {| w_disk := d0; w_journal := []; w_events := [] |}) =
+            hrun cr ops c0 {| w_disk := d0; w_journal := []; w_events := [] |}).
+Proof. exact fresh_writer_cache_transparent. Qed.
+
+Theorem C14_cached_lookup_step :
+  forall ev : evo,
+         evictor ev ->
+         forall (t : mtree) (tf : file) (i : N) (am : bool),
+         csim t tf (node_get_c ev t tf i am) (node_get t tf i am).
+Proof. exact csim_node_get. Qed.
+
+Theorem C14_cached_proof_creation :
+  forall ev : evo,
+         evictor ev ->
+         forall (t : mtree) (tf : file) (block hash : option req_block) (seek : option req_seek)
+           (upgrade : option req_upgrade),
+         csim t tf (create_valueless_proof_c ev t tf block hash seek upgrade)
+           (create_valueless_proof t tf block hash seek upgrade).
+Proof. exact csim_create_valueless_proof. Qed.
+
+Theorem C14_cached_verification :
+  forall ev : evo,
+         evictor ev ->
+         forall (t : mtree) (tf : file) (cr : crypto) (pf : proof) (pk : bytes),
+         csim t tf (verify_proof_c ev cr t tf pf pk) (verify_proof cr t tf pf pk).
+Proof. exact csim_verify_proof. Qed.
+
+Theorem C14_cache_filled_at_open :
+  forall (ht : header_tree) (tf : file) (tick : nat) (t : mtree),
+         tree_open ht tf = Ok t ->
+         f_len tf <= u64_max ->
+         (forall r : node, In r (t_roots t) -> node_blank r = false) ->
+         tree_open_c ht tf tick =
+         ({| k_cache := add_nodes nm_empty (t_roots t); k_tick := tick; k_hits := 0 |}, Ok t) /\
+         cache_ok (add_nodes nm_empty (t_roots t)) t tf.
+Proof. exact tree_open_cached. Qed.
+
+Theorem C14_replica_step_condition :
+  forall (cr : crypto) (f : option bool) (pf : proof) (c : core) (w : world),
+         flushable (c_tree c) ->
+         proof_agrees cr c w pf ->
+         step_vm cr (HApplyProof f pf) c w /\
+         (let '(_, _, c', _) := hstep cr (HApplyProof f pf) c w in flushable (c_tree c')).
+Proof. exact apply_proof_step_vm. Qed.
+
+Theorem C14_cache_valid_after_history :
+  forall (cr : crypto) (ev : evo),
+         evictor ev ->
+         forall (ops : list hop) (st : cst) (c : core) (w : world),
+         valid st c w ->
+         hist_vm cr ops c w ->
+         hlive cr ops c w = true ->
+         valid (fst (hrun_c cr ev ops st c w)) (snd (fst (snd (hrun_c cr ev ops st c w))))
+           (snd (snd (hrun_c cr ev ops st c w))).
+Proof. exact cache_valid_after_history. Qed.
+
 Print Assumptions C14_cache_transparent.
 Print Assumptions C14_cache_starts_valid.
 Print Assumptions C14_cache_insert_keeps_valid.
 Print Assumptions C14_cache_any_eviction.
 Print Assumptions C14_cache_survives_immutable_updates.
 Print Assumptions C14_required_node_transparent.
+Print Assumptions C14_paged_memory_refines_flat_file.
+Print Assumptions C14_paged_memory_step.
+Print Assumptions C14_paged_memory_steps.
+Print Assumptions C14_cache_transparent_for_histories.
+Print Assumptions C14_cache_transparent_for_writer_histories.
+Print Assumptions C14_cache_transparent_from_creation.
+Print Assumptions C14_cached_lookup_step.
+Print Assumptions C14_cached_proof_creation.
+Print Assumptions C14_cached_verification.
+Print Assumptions C14_cache_filled_at_open.
+Print Assumptions C14_replica_step_condition.
+Print Assumptions C14_cache_valid_after_history.
+Print Assumptions CacheOps.toy_writer_runs.
+Print Assumptions CacheOps.toy_replica_runs.
+Print Assumptions CacheOps.caching_a_miss_breaks_transparency.
+Print Assumptions CacheOps.open_caches_blank_root_refuted.
+Print Assumptions PagedMemFacts.with_buffers_exposes_content.
+Print Assumptions PagedMemFacts.ex_state_ok.
